@@ -57,6 +57,18 @@ func cross(vals []any, n int) [][]any {
 	return out
 }
 
+// namesTuples: name over {"", "a", "default"} (the special default group needs its label like any
+// other) x label key, label value and cloud group over {"", "a"}.
+func namesTuples() [][]any {
+	var out [][]any
+	for _, name := range []any{"", "a", "default"} {
+		for _, rest := range cross([]any{"", "a"}, 3) {
+			out = append(out, append([]any{name}, rest...))
+		}
+	}
+	return out
+}
+
 func c16Groups() []c16Group {
 	one := func(vals ...any) [][]any {
 		var out [][]any
@@ -76,7 +88,7 @@ func c16Groups() []c16Group {
 		{"lifecycle", []string{"aws.lifecycle"}, one("", "on-demand", "spot", "Spot", "reserved")},
 		{"launchtemplate", []string{"aws.launch_template_id", "aws.launch_template_version"}, [][]any{{"", ""}, {"lt-1a2b3c4d", "1"}, {"lt-1a2b3c4d", ""}}},
 		{"maxage", []string{"max_node_age"}, one("", "0", "12h", "abc")},
-		{"names", []string{"name", "label_key", "label_value", "cloud_provider_group_name"}, cross([]any{"", "a"}, 4)},
+		{"names", []string{"name", "label_key", "label_value", "cloud_provider_group_name"}, namesTuples()},
 	}
 }
 
